@@ -24,7 +24,7 @@ fps=re.findall(r'fingerprint: (.*)',res)
 json.dump({
  "property": pid, "id": f"{pid}-{n}",
  "what_was_changed_and_what_it_needs_to_manifest": meta.strip()[:3000],
- "round": 1 if int(n[1:])<=3 else (2 if int(n[1:])<=6 else 3),
+ "round": (int(n[1:])+2)//3,
  "confirmed_by_me": confirmed=="yes",
  "confirmation": "scratch worktree: patch applies, go build ok, existing suite all ok with the change, demo FAILS with the change and passes without (tools/trymut.sh)",
  "check_run": f"./check {pid} {tier} against the patched tree",
